@@ -270,3 +270,20 @@ Print Assumptions stream_then_corruption.
 
 Example ex_bad_header : exists r, have_message DBUS_MAXIMUM_MESSAGE_LENGTH (repeat 0 16 ++ [1;2;3]) = HaveInvalid r.
 Proof. eexists. vm_compute. reflexivity. Qed.
+
+From DV Require Import Proofs.ReadLimit.
+
+(* the same stream taken from the socket by the transport's reading loop under the loader's read limit *)
+Theorem stream_delivery_limited ms : Forall sendable ms ->
+  let d := concat (map spec_encode_message ms) in
+  exists l' msgs, feed_limited (S (length d)) loader_new d 0 = inl l' /\
+    outcome l' = (false, msgs) /\ Forall2 delivered ms msgs.
+Proof.
+  intros HS d.
+  destruct (feed_limited_correct loader_new d 0) as (l' & Hl & Ho).
+  change (norm loader_new) with loader_new in Hl, Ho.
+  destruct (stream_delivery ms [d] HS) as (msgs & Hm & F2); [cbn [concat]; apply app_nil_r|].
+  cbn [feed_all fold_left] in Hm.
+  exists l', msgs. split; [exact Hl|]. split; [rewrite Ho; exact Hm|exact F2].
+Qed.
+Print Assumptions stream_delivery_limited.
